@@ -46,6 +46,10 @@ type Chooser struct {
 	// KeepLabels makes the chooser retain labels in Points (replay files, debugging).
 	KeepLabels bool
 	hashes     []uint32
+	// NextKey, when set non-zero by the body before a Choose/Free call, is the key of the global state at
+	// that point; the explorer prunes points whose state it already expanded with at least as much budget.
+	NextKey uint64
+	keys    []uint64
 }
 
 func pointHash(n int, free bool, label string) uint32 {
@@ -87,6 +91,8 @@ func (c *Chooser) point(n int, free bool, label string) int {
 	}
 	c.Points = append(c.Points, p)
 	c.hashes = append(c.hashes, pointHash(n, free, label))
+	c.keys = append(c.keys, c.NextKey)
+	c.NextKey = 0
 	return ch
 }
 
@@ -95,6 +101,9 @@ func (c *Chooser) Choose(n int, label string) int { return c.point(n, false, lab
 
 // Free returns an option in [0,n); alternatives cost no deviation.
 func (c *Chooser) Free(n int, label string) int { return c.point(n, true, label) }
+
+// SetKey publishes the key of the global state at the next choice point (see NextKey).
+func (c *Chooser) SetKey(k uint64) { c.NextKey = k }
 
 // Bool is Choose(2) as a bool (default false).
 func (c *Chooser) Bool(label string) bool { return c.point(2, false, label) == 1 }
